@@ -188,6 +188,8 @@ def benign(pos, opts, seed):
                 continue
             if opts.get("only") and opts["only"] != d:
                 continue
+            if opts.get("match") and not re.search(opts["match"], d):
+                continue
             sh(["git", "-C", scratch, "checkout", "--", "."])
             sh(["git", "-C", scratch, "clean", "-fdq", "-e", "target"])
             sh(["git", "-C", scratch, "apply", os.path.join(base, d, "patch.diff")])
@@ -216,6 +218,8 @@ def benign(pos, opts, seed):
     tag = "" if seed == common.DEFAULT_SEED else "-seed%d" % seed
     if opts.get("only"):
         tag += "-only-" + opts["only"]
+    if opts.get("match"):
+        tag += "-part-" + re.sub(r"[^A-Za-z0-9]+", "_", opts["match"])
     out = os.path.join(common.VERIF, "reports", "benign-" + ("all" if not pos else pos[0]) + tag + ".json")
     json.dump({"seed": seed, "all_properties_checked": opts.get("all") == "1", "results": results}, open(out, "w"), indent=1)
     common.log("%d of %d runs fine; report: %s" % (len(results) - len(bad), len(results), out))
